@@ -24,7 +24,7 @@ static std::vector<const char*> SYNTH[] = {
     {">"},
   {">"}};
 static const mjXConstraintDef SYNTH_CONS[] = {
-  {2, 'e', "a|b"}, {2, 'r', "c|a"}, {4, 'e', "quat|euler"}, {6, 'o', "mass"}, {7, 'o', "size|fromto"}, {7, 't', "size type"}};
+  {2, 'e', "a|b"}, {2, 'r', "c|a"}, {4, 'e', "quat|euler"}, {7, 'o', "size|fromto"}, {7, 't', "size type"}};
 
 namespace real {
 #include "xml/generated/mjcf_table.inc"
